@@ -79,6 +79,57 @@ def bits(x: float) -> bytes:
     return struct.pack('<d', x)
 
 
+# =============================================================================================== robustness of the check
+# Round 4.  Every stage that calls into srctools.math runs under `guarded`: an exception nobody expected, or a call that does
+# not return (a fault can turn the loop-free float code into a loop), ends as a VIOLATION with a replay of the input that was
+# being processed - not as INTERNAL-ERROR and not as a hung check.  `_CURRENT[0]` is the replay object of the call in flight
+# (set by the functions that call the implementation).  STAGE_SECONDS is far above what a stage needs (the slowest takes
+# about 6 s quick / 40 s with thorough budgets on a loaded machine).  Once one stage has hung, the others get
+# STAGE_SECONDS_AFTER_HANG each, so that a hanging implementation costs about 10 minutes in total and not 11 x STAGE_SECONDS.
+_CURRENT: list[Any] = [None]
+STAGES = ('correspondence-formulas', 'correspondence-dispatch', 'correspondence-angle-operand', 'correspondence-inverse',
+          'correspondence-inplace-census', 'correspondence-rounding', 'correspondence-euler-float', 'search-operands',
+          'search-identities', 'search-composed', 'search-inplace')
+STAGE_SECONDS = 300
+STAGE_SECONDS_AFTER_HANG = 30
+
+
+class StageTimeout(BaseException):      # not an Exception: the `except Exception` of the oracles must not swallow it
+    pass
+
+
+def _on_alarm(signum, frame):      # noqa: ARG001
+    raise StageTimeout()
+
+
+def guarded(ck: Ck, found: dict, stage: str, fn, *args) -> bool:
+    """Run one stage.  Returns False when it was cut short (the caller then leaves the stage's obligation failed)."""
+    import signal
+    import traceback
+    _CURRENT[0] = None
+    old = signal.signal(signal.SIGALRM, _on_alarm)
+    limit = STAGE_SECONDS_AFTER_HANG if any(k.startswith('hang:') for k in found) else STAGE_SECONDS
+    signal.alarm(limit)
+    try:
+        fn(*args)
+        return True
+    except StageTimeout:
+        key, what = f'hang:{stage}', f'stage {stage}: a call into srctools.math did not return within {limit} s'
+    except Exception as e:      # noqa: BLE001
+        tb = traceback.extract_tb(e.__traceback__)
+        where = next((f'{f.name} (math.py:{f.lineno})' for f in reversed(tb) if f.filename.endswith('math.py')), None)
+        key = f'exception:{stage}'
+        what = (f'stage {stage}: unexpected {type(e).__name__}: {e}' + (f' raised in {where}' if where else
+                f' raised at {tb[-1].filename.rsplit("/", 1)[-1]}:{tb[-1].lineno}' if tb else ''))
+    finally:
+        signal.alarm(0)
+        signal.signal(signal.SIGALRM, old)
+    found.setdefault(key, (what + f'; input in flight: {_CURRENT[0]!r}'[:300], _CURRENT[0] or {'kind': 'stage', 'stage': stage}))
+    ck.obligation(f'stage-completed:{stage}', False, what)
+    ck.tie_broken.append(f'stage {stage} did not complete')
+    return False
+
+
 # =============================================================================================== reference maths
 # Independent of srctools: the engine's AngleMatrix (mathlib_base.cpp) transposed for row vectors, and the three
 # elementary rotations written from their geometric meaning.
@@ -284,6 +335,7 @@ def corr_formulas(ck: Ck, F: dict) -> None:
     for i in range(n):
         rng = ck.rng
         (p, y, r), acls = gen_angle(rng)
+        _CURRENT[0] = {'kind': 'identity', 'angle': (p, y, r), 'vector': (1.0, 2.0, 3.0), 'second_angle': (10.0, 20.0, 30.0), 'identity': 'any'}
         ck.hist('formula_angle_class', acls)
         cls = rng.choice([Matrix, FrozenMatrix])
         for nm, val in (('pitch', p), ('yaw', y), ('roll', r)):
@@ -342,6 +394,7 @@ def eval_term(F: dict, t: Any, L: tuple, R: tuple) -> tuple:
 
 
 def observe(form: str, lc: str, rc: str, alias: bool, vals_l: dict, vals_r: dict) -> dict:
+    _CURRENT[0] = {'kind': 'triple', 'form': form, 'l': lc, 'r': rc, 'alias': alias, 'left': vals_l, 'right': vals_r}
     L = make(lc, vals_l)
     R = L if alias else make(rc, vals_r)
     sl, sr = snapshot(L), snapshot(R)
@@ -492,6 +545,7 @@ def gen_inverse_input(rng: random.Random) -> tuple[list[float], str]:
 def run_inverse(vals: list[float]) -> tuple[str, list[float] | None]:
     """What MatrixBase.inverse does on the raw nine values: ('ok', nine doubles) / ('noinverse', None) /
     ('zerodiv', None); anything else is returned as ('other:<exception>', None)."""
+    _CURRENT[0] = {'kind': 'inverse', 'matrix': list(vals)}
     try:
         inv = raw_matrix(vals).inverse()
     except ZeroDivisionError:
@@ -664,6 +718,7 @@ def ident_problems(p: float, y: float, r: float, v: tuple, q: tuple) -> list[tup
     """All value identities of the property for one angle triple (p,y,r), one vector v and a second angle triple q."""
     from srctools.math import Angle, FrozenAngle, FrozenMatrix, Matrix, Vec
     out: list[tuple[str, str]] = []
+    _CURRENT[0] = {'kind': 'identity', 'angle': (p, y, r), 'vector': tuple(v), 'second_angle': tuple(q), 'identity': 'any'}
     M = Matrix.from_angle(p, y, r)
     m = mat_list(M)
     e = maxdiff(ref_mul(m, ref_T(m)), [[1, 0, 0], [0, 1, 0], [0, 0, 1]])
@@ -802,6 +857,7 @@ def composed_problem(a: tuple, b: tuple, form: str) -> tuple[str, str] | None:
     converts to an Angle and back: exactly up to rounding outside the gimbal band, within 2*horizontal length inside,
     and without an exception.  `form`: how the product is formed and converted."""
     from srctools.math import Angle, Matrix
+    _CURRENT[0] = {'kind': 'composed', 'a': a, 'b': b, 'form': form}
     try:
         if form == 'matrix':
             M = Matrix.from_angle(*a) @ Matrix.from_angle(*b)
@@ -910,6 +966,7 @@ def close_snap(cls: str, a: tuple, b: tuple) -> bool:
 def inplace_op_problems(iname: str, pname: str, lc: str, rc: str, vl: dict, vr: dict) -> list[tuple[str, str]] | None:
     import operator
     import warnings
+    _CURRENT[0] = {'kind': 'inplace-op', 'iname': iname, 'pname': pname, 'l': lc, 'r': rc, 'left': vl, 'right': vr}
     with warnings.catch_warnings():
         warnings.simplefilter('ignore')
         x0, y0 = make(lc, vl), make_operand(rc, vr)
@@ -955,6 +1012,7 @@ def inplace_method_problems(name: str, rc: str, vl: dict, vr: dict) -> list[tupl
     import warnings
     from srctools.math import Angle, Vec
     probs: list[tuple[str, str]] = []
+    _CURRENT[0] = {'kind': 'inplace-method', 'name': name, 'r': rc, 'left': vl, 'right': vr}
     R = None if rc == 'None' else make(rc, vr)
     sR = None if R is None else snapshot(R)
     rm = [[1.0, 0, 0], [0, 1.0, 0], [0, 0, 1.0]] if R is None else as_ref_mat((rc, sR))
@@ -1215,7 +1273,7 @@ def corr_rounding(ck: Ck) -> None:
         ck.extra['rounding_disagreements'] = bad
 
 
-def corr_euler_float(ck: Ck) -> None:
+def corr_euler_float(ck: Ck, found: dict) -> None:
     """The hypothesis of c04_euler_roundtrip_binary64, measured: for float angles (p, y, r) let M* be the EXACT rotation
     from_angle(p, y, r) (60-digit decimal arithmetic) and a* its exact Euler angles, whose sin / cos are horiz M*, -ac, aa/h,
     ab/h, bc/h, cc/h.  The implementation computes M_f = Matrix.from_angle(p, y, r), a_f = M_f.to_angle() and, inside
@@ -1242,6 +1300,7 @@ def corr_euler_float(ck: Ck) -> None:
             M = [cp * cy, cp * sy, -sp, sr * sp * cy - cr * sy, sr * sp * sy + cr * cy, sr * cp,
                  cr * sp * cy + sr * sy, cr * sp * sy - sr * cy, cr * cp]
             hstar = (M[0] * M[0] + M[1] * M[1]).sqrt()
+            _CURRENT[0] = {'kind': 'euler-float', 'angle': (p, y, r)}
             Mf = Matrix.from_angle(p, y, r)
             if not (hstar > Decimal('0.0011') and math.hypot(Mf[0, 0], Mf[0, 1]) > 0.0011):
                 ck.hist('euler_float_class', 'inside or at the gimbal band (skipped)')
@@ -1262,7 +1321,13 @@ def corr_euler_float(ck: Ck) -> None:
                 if dd > worst_d:
                     worst_d, worst_at = dd, (p, y, r)
             back = snapshot(Matrix.from_angle(af))
-            worst_e = max(worst_e, max(abs(float(Decimal(b) - m)) for b, m in zip(back, M)))
+            e_here = max(abs(float(Decimal(b) - m)) for b, m in zip(back, M))
+            worst_e = max(worst_e, e_here)
+            if e_here > 2e-13 and 'euler-roundtrip-float' not in found:
+                found['euler-roundtrip-float'] = (
+                    f'Matrix.from_angle(M.to_angle()) for M = Matrix.from_angle({p}, {y}, {r}) (horizontal length {float(hstar):.3g} > '
+                    f'0.001) differs from the exact rotation by {e_here:.3g} (proved bound given accurate angles: 2e-13)',
+                    {'kind': 'euler-float', 'angle': (p, y, r)})
             ck.seen(('euler-float', p, y, r))
     ck.extra['euler_float_worst_input_error'] = worst_d
     ck.extra['euler_float_worst_roundtrip_error'] = worst_e
@@ -1447,23 +1512,23 @@ def run(ck: Ck) -> None:
         built = core and ck.build(['Props/C04.vo'])
         if built:
             theorems_with_axioms(ck)
-    # 4. correspondences
-    if A is not None:
-        corr_formulas(ck, A['F'])
-        corr_dispatch(ck, A['F'], A['rows'])
-        corr_angle_operand(ck)
-    if ok_i and models:
-        corr_inverse(ck)
-    if ok_ip:
-        corr_inplace_census(ck)
-    if ok_rr:
-        corr_rounding(ck)
-        corr_euler_float(ck)
+    # 4. correspondences and 5. searches, each under `guarded` (exception / hang -> violation with the input in flight)
     found: dict[str, tuple[str, dict]] = {}
-    search_operands(ck, found)
-    search_identities(ck, found)
-    search_composed(ck, found)
-    search_inplace(ck, found)
+    if A is not None:
+        guarded(ck, found, 'correspondence-formulas', corr_formulas, ck, A['F'])
+        guarded(ck, found, 'correspondence-dispatch', corr_dispatch, ck, A['F'], A['rows'])
+        guarded(ck, found, 'correspondence-angle-operand', corr_angle_operand, ck)
+    if ok_i and models:
+        guarded(ck, found, 'correspondence-inverse', corr_inverse, ck)
+    if ok_ip:
+        guarded(ck, found, 'correspondence-inplace-census', corr_inplace_census, ck)
+    if ok_rr:
+        guarded(ck, found, 'correspondence-rounding', corr_rounding, ck)
+        guarded(ck, found, 'correspondence-euler-float', corr_euler_float, ck, found)
+    guarded(ck, found, 'search-operands', search_operands, ck, found)
+    guarded(ck, found, 'search-identities', search_identities, ck, found)
+    guarded(ck, found, 'search-composed', search_composed, ck, found)
+    guarded(ck, found, 'search-inplace', search_inplace, ck, found)
     for key, (what, rp) in sorted(found.items()):
         ck.violation(key, what, rp)
     keys = set(found)
@@ -1473,6 +1538,12 @@ def run(ck: Ck) -> None:
         ck.explain('instance:dispatch_')
     if any(k.startswith(TO_ANGLE_KEYS) for k in keys):
         ck.explain('instance:to_angle_')
+    if 'euler-roundtrip-float' in keys:
+        ck.explain('correspondence:euler-angle-inputs')
+    # a stage that was cut short is explained by its own hang: / exception: violation (which carries the input in flight)
+    for k in keys:
+        if k.startswith(('hang:', 'exception:')) and k.split(':', 1)[1] in STAGES:
+            ck.explain('stage-completed:' + k.split(':', 1)[1])
     if any(k.startswith('value-mismatch:Matrix:same-object') for k in keys):
         ck.explain('instance:mat_mul_alias_')
     if any(k.startswith(('not-in-place', 'inplace-')) for k in keys):
@@ -1563,8 +1634,52 @@ def explain_build(ck: Ck, keys: set) -> None:
             o['explained'] = True
 
 
+def euler_float_error(p: float, y: float, r: float) -> float:
+    """Largest entry distance between Matrix.from_angle(Matrix.from_angle(p, y, r).to_angle()) and the exact rotation."""
+    import decimal
+    from srctools.math import Matrix
+    with decimal.localcontext() as ctx:
+        ctx.prec = 60
+        (sp, cp), (sy, cy), (sr, cr) = hp_sin_cos(p), hp_sin_cos(y), hp_sin_cos(r)
+        M = [cp * cy, cp * sy, -sp, sr * sp * cy - cr * sy, sr * sp * sy + cr * cy, sr * cp,
+             cr * sp * cy + sr * sy, cr * sp * sy - sr * cy, cr * cp]
+        back = snapshot(Matrix.from_angle(Matrix.from_angle(p, y, r).to_angle()))
+        return max(abs(float(Decimal(b) - m)) for b, m in zip(back, M))
+
+
 def replay(data: dict) -> int:
+    """Re-run the input of a violation.  An exception or a call that does not return within 60 s is the failure itself."""
+    import signal
+    old = signal.signal(signal.SIGALRM, _on_alarm)
+    signal.alarm(60)
+    try:
+        return _replay(data)
+    except StageTimeout:
+        print('the call into srctools.math did not return within 60 s')
+        return 1
+    except Exception as e:      # noqa: BLE001
+        import traceback
+        traceback.print_exc()
+        print(f'problem   : unexpected {type(e).__name__}: {e}')
+        return 1
+    finally:
+        signal.alarm(0)
+        signal.signal(signal.SIGALRM, old)
+
+
+def _replay(data: dict) -> int:
     r = data['replay']
+    if r.get('kind') == 'inverse':
+        out = run_inverse(list(r['matrix']))
+        print('inverse() of', r['matrix'], '->', out)
+        return 1 if out[0].startswith('other') else 0
+    if r.get('kind') == 'euler-float':
+        e = euler_float_error(*r['angle'])
+        print('Matrix.from_angle(M.to_angle()) vs the exact rotation for angle', r['angle'], ': error', e)
+        return 1 if e > 2e-13 else 0
+    if r.get('kind') == 'stage':
+        print('no single input was in flight; re-run the check to reproduce:', r)
+        return 1
     if r.get('kind') == 'triple':
         vl = {k: tuple(v) for k, v in r['left'].items()}
         vr = {k: tuple(v) for k, v in r['right'].items()}
